@@ -1353,6 +1353,15 @@ def _(c, table, len, dtype="bool", fill=1):
     return [t.num_rows, summarise(r)]
 
 
+@op("table.ll_keep_rows", [("table", "raw"), ("len", "raw")], needs="tc")
+def _(c, table, len):
+    """the C-module entry point under keep_rows (the Python wrapper checks the length too)"""
+    import numpy as np
+    t = getattr(c.tc, table)
+    r = t.ll_table.keep_rows(np.ones(_len_sym(len, t.num_rows), dtype=bool))
+    return [t.num_rows, summarise(r)]
+
+
 @op("table.keep_rows_pattern", [("table", "raw"), ("pattern", "raw")], needs="tc")
 def _(c, table, pattern):
     import numpy as np
@@ -1907,7 +1916,7 @@ def expected_verdict(st, env):
     o = OPS[st["op"]]
     a = st.get("args", {})
     # wrong-length arrays must be rejected (property text)
-    if st["op"] in ("table.keep_rows", "table.getitem_mask") and a.get("len") != "n":
+    if st["op"] in ("table.keep_rows", "table.ll_keep_rows", "table.getitem_mask") and a.get("len") != "n":
         n = env_count(env, a.get("table"), "tc")
         if n is not None and _len_sym(a["len"], n) != n:
             return "raise"
@@ -2128,12 +2137,12 @@ def model_term(k, st, r, obs, case):
             ids = [res_id(s, N) for s in a["nodes"]]
             m = "subset_entry %s %s %s %s" % (cbool(ts["migrations"] > 0), cz(N), _alloc(N), clist(ids))
         elif opn == "ts.ibd_within":
-            m = "ibd_within_init_current %s %s" % (cz(N), clist([res_id(s, N) for s in a["within"]]))
+            m = "ibd_within_init C09_ibd_within_ge %s %s" % (cz(N), clist([res_id(s, N) for s in a["within"]]))
         elif opn == "ts.ibd_between":
-            m = "ibd_between_init_current %s [%s; %s]" % (cz(N), clist([res_id(s, N) for s in a["a"]]),
+            m = "ibd_between_init C09_ibd_between_ge %s [%s; %s]" % (cz(N), clist([res_id(s, N) for s in a["a"]]),
                                                          clist([res_id(s, N) for s in a["b"]]))
         elif opn == "ts.link_ancestors":
-            m = "link_ancestors_entry_current %s %s %s %s" % (cbool(env["ts_edge_md"]), cz(N),
+            m = "link_ancestors_entry C09_ancestor_mapper_samples_ge C09_ancestor_mapper_ancestors_ge %s %s %s %s" % (cbool(env["ts_edge_md"]), cz(N),
                                                              clist([res_id(s, N) for s in a["samples"]]),
                                                              clist([res_id(s, N) for s in a["ancestors"]]))
         elif opn in ("ts.variants", "ts.genotype_matrix") and a.get("samples") is not None:
@@ -2160,7 +2169,9 @@ def model_term(k, st, r, obs, case):
             anc = a.get("anc")
             if anc is not None and not (_ints([anc]) and abs(anc) < 2 ** 31):
                 return None
-            m = "map_mutations_entry true %s %s %s" % (cz(S), clist(geno), "None" if anc is None else "(Some %s)" % cz(anc))
+            return ("(C09_hartigan_max_alleles =? HARTIGAN_MAX_ALLELES) && verdict_eqb (verdict_of "
+                    "(map_mutations_entry true %s %s %s)) %s" % (
+                        cz(S), clist(geno), "None" if anc is None else "(Some %s)" % cz(anc), v))
     else:
         tcn = env.get("tc")
         if tcn is None:
@@ -2178,14 +2189,15 @@ def model_term(k, st, r, obs, case):
         elif opn == "table.getitem_ids" and a.get("dtype") in (None, "int32", "int64") and a["ids"]:
             n = tcn[a["table"]]
             m = "table_extend %s %s %s %s" % (_alloc(n), _alloc(n + 1), cz(n), clist([res_id(s, n) for s in a["ids"]]))
-        elif opn == "table.keep_rows" and a.get("dtype", "bool") == "bool":
+        elif opn == "table.ll_keep_rows" or (opn == "table.keep_rows" and a.get("dtype", "bool") == "bool"):
             n = tcn[a["table"]]
             m = "table_keep_rows true %s %s %s" % (_alloc(_len_sym(a["len"], n), 1), _alloc(n), cz(n))
         elif opn in ("table.set_columns_len", "table.append_columns_len") and a.get("col") == "metadata_offset" \
                 and a.get("table") in ("sites", "mutations") and "cols" in env:
             cl = env["cols"]
             mo = _resize(cl["mo"], _len_sym(a["len"], len(cl["mo"])))
-            cur = "site_table_set_columns_current" if a["table"] == "sites" else "mutation_table_set_columns_current"
+            cur = "site_table_set_columns " + ("C09_site_metadata_offset_checked" if a["table"] == "sites"
+                                               else "C09_mutation_metadata_offset_checked")
             m = "%s %s %s %s %s %s" % (cur, _alloc(cl["n"]), clist(cl["so"]), clist(mo), cz(cl["sl"]), cz(cl["ml"]))
         elif opn == "tc.subset":
             n = tcn["nodes"]
@@ -2196,14 +2208,14 @@ def model_term(k, st, r, obs, case):
             m = "simplify_entry %s %s %s" % (cbool(env["tc_edge_md"]), cz(n), clist([res_id(s, n) for s in a["samples"]]))
         elif opn == "tc.ibd_within":
             n = tcn["nodes"]
-            m = "ibd_within_init_current %s %s" % (cz(n), clist([res_id(s, n) for s in a["within"]]))
+            m = "ibd_within_init C09_ibd_within_ge %s %s" % (cz(n), clist([res_id(s, n) for s in a["within"]]))
         elif opn == "tc.ibd_between":
             n = tcn["nodes"]
-            m = "ibd_between_init_current %s [%s; %s]" % (cz(n), clist([res_id(s, n) for s in a["a"]]),
+            m = "ibd_between_init C09_ibd_between_ge %s [%s; %s]" % (cz(n), clist([res_id(s, n) for s in a["a"]]),
                                                          clist([res_id(s, n) for s in a["b"]]))
         elif opn == "tc.link_ancestors":
             n = tcn["nodes"]
-            m = "link_ancestors_entry_current %s %s %s %s" % (cbool(env["tc_edge_md"]), cz(n),
+            m = "link_ancestors_entry C09_ancestor_mapper_samples_ge C09_ancestor_mapper_ancestors_ge %s %s %s %s" % (cbool(env["tc_edge_md"]), cz(n),
                                                              clist([res_id(s, n) for s in a["samples"]]),
                                                              clist([res_id(s, n) for s in a["ancestors"]]))
     if m is None:
@@ -2544,6 +2556,8 @@ class Tables(Monitor):
                     yield {"base": rng.choice(bases), "steps": [{"op": "table.ll_extend", "args": {"table": t, "ids": ids, "dtype": dt}}] + T}
             for ln in ("n", "n-1", "n+1", "0", "2n", "1"):
                 yield {"base": rng.choice(bases), "steps": [{"op": "table.getitem_mask", "args": {"table": t, "len": ln}}] + T}
+                yield {"base": rng.choice(bases), "steps": [{"op": "table.ll_keep_rows", "args": {"table": t, "len": ln}},
+                                                           {"op": "table.iterate", "args": {"table": t}}] + T}
                 for dt, fill in (("bool", 1), ("bool", 0), ("int8", 1), ("uint8", 2), ("int32", 1), ("float64", 1)) if tier != "quick" else (("bool", 1), ("uint8", 2), ("float64", 1)):
                     yield {"base": rng.choice(bases), "steps": [
                         {"op": "table.keep_rows", "args": {"table": t, "len": ln, "dtype": dt, "fill": fill}},
